@@ -26,7 +26,9 @@ import (
 	"github.com/oasisprotocol/oasis-core/go/common/quantity"
 	"github.com/oasisprotocol/oasis-core/go/common/version"
 	abciAPI "github.com/oasisprotocol/oasis-core/go/consensus/cometbft/api"
+	memorySigner "github.com/oasisprotocol/oasis-core/go/common/crypto/signature/signers/memory"
 	beaconState "github.com/oasisprotocol/oasis-core/go/consensus/cometbft/apps/beacon/state"
+	stakingApp "github.com/oasisprotocol/oasis-core/go/consensus/cometbft/apps/staking"
 	consensusState "github.com/oasisprotocol/oasis-core/go/consensus/cometbft/apps/consensus/state"
 	registryState "github.com/oasisprotocol/oasis-core/go/consensus/cometbft/apps/registry/state"
 	schedulerApp "github.com/oasisprotocol/oasis-core/go/consensus/cometbft/apps/scheduler"
@@ -46,7 +48,7 @@ import (
 type NodeRt struct {
 	Rt  int    `json:"rt"`
 	Ver uint64 `json:"ver"`
-	Tee bool   `json:"tee,omitempty"`
+	Tee int    `json:"tee,omitempty"` // 0: no TEE capability; 1: SGX capability (attestation does not verify); 2: capability with invalid hardware
 }
 type FaultD struct {
 	Rt    int    `json:"rt"`
@@ -59,6 +61,8 @@ type NodeD struct {
 	Roles  uint32   `json:"roles"`
 	Exp    uint64   `json:"exp"`
 	Freeze uint64   `json:"freeze,omitempty"`
+	Elig   uint64   `json:"elig,omitempty"`  // NodeStatus.ElectionEligibleAfter
+	NoPi   bool     `json:"no_pi,omitempty"` // VRF epochs: the node did not submit a proof
 	Rts    []NodeRt `json:"rts,omitempty"`
 	Faults []FaultD `json:"faults,omitempty"`
 }
@@ -93,6 +97,7 @@ type RtD struct {
 	Deps      []DepD `json:"deps"`
 	CW        *CsD   `json:"cw,omitempty"`
 	CB        *CsD   `json:"cb,omitempty"`
+	Tee       int    `json:"tee,omitempty"` // TEEHardware
 }
 type ParamsD struct {
 	Min    int  `json:"min"`
@@ -106,8 +111,16 @@ type EpochD struct {
 	Entropy string  `json:"entropy"`
 	Params  ParamsD `json:"params"`
 	FV261   bool    `json:"fv261"`
+	VRF     *VrfD   `json:"vrf,omitempty"` // beacon backend VRF
+	Base    uint64  `json:"base"`          // base epoch
+	Changed bool    `json:"changed"`       // the epoch changed in this block
+	Slashed bool    `json:"slashed,omitempty"`
 	Ents    []EntD  `json:"ents"` // same length/order as Case.EntKeys
 	Nodes   []NodeD `json:"nodes"`
+}
+type VrfD struct {
+	Can  bool `json:"can"`  // PrevState.CanElectCommittees
+	Weak bool `json:"weak"` // DebugAllowWeakAlpha
 }
 type Case struct {
 	Thresholds []string `json:"thresholds"` // global thresholds by kind 0..6
@@ -135,6 +148,7 @@ type CommO struct {
 	Present bool
 }
 type Obs struct {
+	Skip    bool
 	Err     int // 0 ok, 1 power, 2 none, 3 insufficient, 9 other
 	ErrText string
 	Vals    []ValO
@@ -144,6 +158,28 @@ type Obs struct {
 }
 
 func hx(s string) []byte { b, _ := hex.DecodeString(s); return b }
+
+const chainContext = "verif-c14-chain-context"
+
+func alphaOf(epoch uint64) []byte { return []byte(fmt.Sprintf("verif-alpha-%d", epoch)) }
+
+var proofCache = map[string]*signature.Proof{}
+
+// proofOf is a real VRF proof (memory signer seeded by the node key) over the epoch's alpha.
+// The election never verifies proofs (they are verified on submission); it hashes their betas.
+func proofOf(key string, epoch uint64) *signature.Proof {
+	ck := fmt.Sprintf("%s/%d", key, epoch)
+	if p, ok := proofCache[ck]; ok {
+		return p
+	}
+	signer, err := memorySigner.NewFromSeed(hx(key))
+	must(err)
+	signer.(*memorySigner.Signer).UnsafeSetRole(signature.SignerVRF)
+	p, err := signature.Prove(signer, alphaOf(epoch))
+	must(err)
+	proofCache[ck] = p
+	return p
+}
 func pk(s string) (k signature.PublicKey) {
 	copy(k[:], hx(s))
 	return
@@ -258,8 +294,11 @@ func (r *runner) mkNode(d NodeD) *node.Node {
 	n.Consensus.ID = pk(d.Cons)
 	for _, x := range d.Rts {
 		nr := &node.Runtime{ID: ns(r.c.Rts[x.Rt].ID), Version: version.FromU64(x.Ver)}
-		if x.Tee {
-			nr.Capabilities.TEE = &node.CapabilityTEE{Hardware: node.TEEHardwareIntelSGX}
+		switch x.Tee {
+		case 1:
+			nr.Capabilities.TEE = &node.CapabilityTEE{Hardware: node.TEEHardwareIntelSGX, Attestation: []byte("not an attestation")}
+		case 2:
+			nr.Capabilities.TEE = &node.CapabilityTEE{Hardware: node.TEEHardwareInvalid}
 		}
 		n.Runtimes = append(n.Runtimes, nr)
 	}
@@ -270,7 +309,8 @@ func (r *runner) epoch(e *EpochD) (obs Obs) {
 	c := r.c
 	r.cfg.CurrentEpoch = beacon.EpochTime(e.Epoch)
 	r.cfg.LastHeight = int64(e.Epoch * 10)
-	r.cfg.EpochChanged = true
+	r.cfg.EpochChanged = e.Changed
+	r.cfg.BaseEpoch = beacon.EpochTime(e.Base)
 	r.st.UpdateMockApplicationStateConfig(r.cfg)
 
 	// --- set up the state of this epoch ---
@@ -284,12 +324,31 @@ func (r *runner) epoch(e *EpochD) (obs Obs) {
 		}
 		must(consensusState.NewMutableState(ctx.State()).SetConsensusParameters(ctx, cp))
 		bs := beaconState.NewMutableState(ctx.State())
-		must(bs.SetConsensusParameters(ctx, &beacon.ConsensusParameters{Backend: beacon.BackendInsecure}))
+		if e.VRF == nil {
+			must(bs.SetConsensusParameters(ctx, &beacon.ConsensusParameters{Backend: beacon.BackendInsecure}))
+		} else {
+			must(bs.SetConsensusParameters(ctx, &beacon.ConsensusParameters{Backend: beacon.BackendVRF, VRFParameters: &beacon.VRFParameters{}}))
+			func() {
+				ictx := r.st.NewContext(abciAPI.ContextInitChain)
+				defer ictx.Close()
+				must(consensusState.NewMutableState(ictx.State()).SetChainContext(ictx, chainContext))
+			}()
+			prev := &beacon.PrevVRFState{Pi: map[signature.PublicKey]*signature.Proof{}, CanElectCommittees: e.VRF.Can}
+			for _, d := range e.Nodes {
+				if !d.NoPi {
+					prev.Pi[pk(d.Key)] = proofOf(d.Key, e.Epoch)
+				}
+			}
+			must(bs.SetVRFState(ctx, &beacon.VRFState{Epoch: beacon.EpochTime(e.Epoch), Alpha: alphaOf(e.Epoch), PrevState: prev}))
+		}
 		must(bs.DebugForceSetBeacon(ctx, hx(e.Entropy)))
 		must(bs.SetEpoch(ctx, beacon.EpochTime(e.Epoch), int64(e.Epoch*10)))
 		sp := &scheduler.ConsensusParameters{
 			MinValidators: e.Params.Min, MaxValidators: e.Params.Max, MaxValidatorsPerEntity: e.Params.Per,
 			DebugBypassStake: e.Params.Bypass,
+		}
+		if e.VRF != nil {
+			sp.DebugAllowWeakAlpha = e.VRF.Weak
 		}
 		if e.Params.Sqrt {
 			sp.VotingPowerDistribution = scheduler.VotingPowerDistributionSqrt
@@ -315,6 +374,7 @@ func (r *runner) epoch(e *EpochD) (obs Obs) {
 				if d.Compute {
 					rt.Kind = registry.KindCompute
 				}
+				rt.TEEHardware = node.TEEHardware(d.Tee)
 				for _, dp := range d.Deps {
 					rt.Deployments = append(rt.Deployments, &registry.VersionInfo{Version: version.FromU64(dp.Ver), ValidFrom: beacon.EpochTime(dp.From)})
 				}
@@ -380,7 +440,7 @@ func (r *runner) epoch(e *EpochD) (obs Obs) {
 			sn.Blob = cbor.Marshal(n)
 			must(rs.SetNode(ctx, r.prevN[d.Key], n, sn))
 			r.prevN[d.Key] = n
-			stt := &registry.NodeStatus{FreezeEndTime: beacon.EpochTime(d.Freeze)}
+			stt := &registry.NodeStatus{FreezeEndTime: beacon.EpochTime(d.Freeze), ElectionEligibleAfter: beacon.EpochTime(d.Elig)}
 			for _, f := range d.Faults {
 				if stt.Faults == nil {
 					stt.Faults = map[common.Namespace]*registry.Fault{}
@@ -396,11 +456,16 @@ func (r *runner) epoch(e *EpochD) (obs Obs) {
 	func() {
 		ctx := r.st.NewContext(abciAPI.ContextBeginBlock)
 		defer ctx.Close()
-		err := r.app.VerifElect(ctx, beacon.EpochTime(e.Epoch))
+		if e.Slashed {
+			ctx.EmitEvent(abciAPI.NewEventBuilder(stakingApp.AppName).TypedAttribute(&staking.TakeEscrowEvent{}))
+		}
+		// the real BeginBlock: shouldElect + elect (+ reward distribution over an empty schedule)
+		err := r.app.BeginBlock(ctx)
 		obs.Err, obs.ErrText = classify(err)
 		var err2 error
 		pending, err2 = schedulerState.NewMutableState(ctx.State()).PendingValidators(ctx)
 		must(err2)
+		obs.Skip = err == nil && pending == nil
 	}()
 	for k, v := range pending {
 		ea := staking.NewAddress(v.EntityID)
@@ -545,9 +610,35 @@ func activeVer(rt *RtD, epoch uint64) (uint64, bool) {
 	}
 	return ver, found
 }
+// sortition is used for the validators of this epoch (enough candidates with a proof)
+func (v *view) valSortition() bool {
+	if v.e.VRF == nil {
+		return false
+	}
+	k := 0
+	for i := range v.e.Nodes {
+		n := &v.e.Nodes[i]
+		if v.live(n) && n.Roles&8 != 0 && v.stakeOK(n.Ent) && !n.NoPi {
+			k++
+		}
+	}
+	return k >= v.e.Params.Min
+}
+
+// committee candidate under the VRF backend: proof submitted and past ElectionEligibleAfter
+func (v *view) vrfOK(n *NodeD) bool {
+	if v.e.VRF == nil {
+		return true
+	}
+	if n.NoPi {
+		return false
+	}
+	return v.e.VRF.Weak || v.e.Epoch > n.Elig
+}
+
 func (v *view) suitable(n *NodeD, rti int) bool {
 	rt := &v.c.Rts[rti]
-	if n.Roles&1 == 0 {
+	if n.Roles&1 == 0 || !v.vrfOK(n) {
 		return false
 	}
 	ver, ok := activeVer(rt, v.e.Epoch)
@@ -563,7 +654,8 @@ func (v *view) suitable(n *NodeD, rti int) bool {
 				return false
 			}
 		}
-		return !x.Tee
+		// no TEE capability for a non-TEE runtime; the generated TEE capabilities never verify
+		return rt.Tee == 0 && x.Tee == 0
 	}
 	return false
 }
@@ -578,6 +670,16 @@ func oracle(c *Case, i int, o *Obs, before []UpdO) string {
 	}
 	if o.Err == 9 {
 		return "election failed with an unexpected error: " + o.ErrText
+	}
+	wantElect := e.Epoch != e.Base && (e.Changed || e.Slashed)
+	if o.Skip == wantElect {
+		return fmt.Sprintf("election trigger: skipped=%v although epoch=%d base=%d changed=%v slashed=%v", o.Skip, e.Epoch, e.Base, e.Changed, e.Slashed)
+	}
+	if o.Skip {
+		if len(o.Updates) != 0 {
+			return "validator updates emitted without an election"
+		}
+		return ""
 	}
 	// the updates turn the engine's previous set into the pending one
 	engine := map[string]int64{}
@@ -666,6 +768,9 @@ func oracle(c *Case, i int, o *Obs, before []UpdO) string {
 			if !v.live(n) || n.Roles&8 == 0 || !v.stakeOK(n.Ent) || represented[n.Ent] {
 				continue
 			}
+			if v.valSortition() && n.NoPi {
+				continue // takes no part in the sortition
+			}
 			for r := range represented {
 				if v.escrow(r).Cmp(v.escrow(n.Ent)) < 0 {
 					return fmt.Sprintf("entity %d (escrow %v) is represented while eligible entity %d (escrow %v) is not", r, v.escrow(r), n.Ent, v.escrow(n.Ent))
@@ -692,6 +797,9 @@ func oracle(c *Case, i int, o *Obs, before []UpdO) string {
 		}
 		if !rt.Compute && e.FV261 {
 			return "executor committee elected for a non-compute runtime"
+		}
+		if e.VRF != nil && !e.VRF.Can && !e.VRF.Weak {
+			return "committee elected although the VRF alpha was weak"
 		}
 		cnt := map[int]int{}
 		perRole := map[int]map[int]int{1: {}, 2: {}}
@@ -760,13 +868,32 @@ func oracle(c *Case, i int, o *Obs, before []UpdO) string {
 }
 
 // ---------- Coq terms ----------
-func num(hexs string) string {
-	s := strings.TrimLeft(hexs, "0")
+// Identifiers and hashed betas are only compared (equality, order) by the
+// model, so a long byte string is rendered by its first 8 bytes: the order and
+// equality of distinct strings are preserved as long as the prefixes are
+// distinct, which is asserted here (a collision aborts the run).
+var prefixSeen = map[string]string{}
+
+func short(hexs string, from int) string {
+	if len(hexs) < from+16 {
+		return hexs
+	}
+	p := hexs[from : from+16]
+	if full, ok := prefixSeen[p]; ok && full != hexs {
+		panic("identifier prefix collision: " + full + " / " + hexs)
+	}
+	prefixSeen[p] = hexs
+	return p
+}
+func numHex(s string) string {
+	s = strings.TrimLeft(s, "0")
 	if s == "" {
 		return "0"
 	}
 	return "0x" + s
 }
+func num(hexs string) string   { return numHex(short(hexs, 0)) }
+func numRt(hexs string) string { return numHex(short(hexs, 16)) } // a namespace starts with 8 flag bytes
 func nlist(xs []int) string {
 	var s []string
 	for _, x := range xs {
@@ -817,7 +944,14 @@ func inputTerm(c *Case, i int, before []UpdO) string {
 	for _, d := range e.Nodes {
 		var nr, fl []string
 		for _, x := range d.Rts {
-			nr = append(nr, fmt.Sprintf("(%s, %d, %s)", num(c.Rts[x.Rt].ID), x.Ver, coqout.Bool(x.Tee)))
+			tee := "None"
+			switch x.Tee {
+			case 1:
+				tee = "(Some (1, false))"
+			case 2:
+				tee = "(Some (0, false))"
+			}
+			nr = append(nr, fmt.Sprintf("(%s, %d, %s)", numRt(c.Rts[x.Rt].ID), x.Ver, tee))
 		}
 		// NodeStatus.Faults is a map: one entry per runtime, the last one set wins
 		fm := map[int]uint64{}
@@ -829,9 +963,9 @@ func inputTerm(c *Case, i int, before []UpdO) string {
 			fm[f.Rt] = f.Until
 		}
 		for _, k := range fo {
-			fl = append(fl, fmt.Sprintf("(%s, %d)", num(c.Rts[k].ID), fm[k]))
+			fl = append(fl, fmt.Sprintf("(%s, %d)", numRt(c.Rts[k].ID), fm[k]))
 		}
-		nodes = append(nodes, fmt.Sprintf("mkNode %s %s %s %d %d %d %s %s", num(d.Key), num(entAddrHex(c.EntKeys[d.Ent])), num(d.Cons), d.Roles, d.Exp, d.Freeze, coqout.List(nr), coqout.List(fl)))
+		nodes = append(nodes, fmt.Sprintf("mkNode %s %s %s %d %d %d %d %s %s", num(d.Key), num(entAddrHex(c.EntKeys[d.Ent])), num(d.Cons), d.Roles, d.Exp, d.Freeze, d.Elig, coqout.List(nr), coqout.List(fl)))
 	}
 	entropy := hx(e.Entropy)
 	nmax := len(e.Nodes)
@@ -840,7 +974,7 @@ func inputTerm(c *Case, i int, before []UpdO) string {
 		for _, dp := range d.Deps {
 			deps = append(deps, fmt.Sprintf("(%d, %d)", dp.Ver, dp.From))
 		}
-		rts = append(rts, fmt.Sprintf("mkRt %s %s %s %d %d %s %s %s", num(d.ID), coqout.Bool(d.Compute), coqout.Bool(d.Suspended), d.G, d.B, coqout.List(deps), csTerm(d.CW), csTerm(d.CB)))
+		rts = append(rts, fmt.Sprintf("mkRt %s %s %s %d %d %s %s %s %d", numRt(d.ID), coqout.Bool(d.Compute), coqout.Bool(d.Suspended), d.G, d.B, coqout.List(deps), csTerm(d.CW), csTerm(d.CB), d.Tee))
 		id := ns(d.ID)
 		tw := table(func(n int) []int { p, err := schedulerApp.VerifCommitteePerm(entropy, id, scheduler.RoleWorker, n); must(err); return p }, nmax)
 		tb := table(func(n int) []int {
@@ -856,12 +990,44 @@ func inputTerm(c *Case, i int, before []UpdO) string {
 		cur = append(cur, fmt.Sprintf("(%s, %d)", num(u.Cons), u.Power))
 	}
 	p := e.Params
-	return fmt.Sprintf("mkIn (mkParams %d %d %d %s %s) %s %d %s %s %s %s %s %s %s",
+	vrf := "None"
+	if e.VRF != nil {
+		// the hashed betas of the submitted proofs in every election context, from the real hashers
+		betas := func(f func(pi *signature.Proof) [32]byte) string {
+			var s []string
+			for _, d := range e.Nodes {
+				if !d.NoPi {
+					b := f(proofOf(d.Key, e.Epoch))
+					s = append(s, fmt.Sprintf("(%s, %s)", num(d.Key), num(hex.EncodeToString(b[:]))))
+				}
+			}
+			return coqout.List(s)
+		}
+		ep := beacon.EpochTime(e.Epoch)
+		cc := []byte(chainContext)
+		var per []string
+		for _, d := range c.Rts {
+			id := ns(d.ID)
+			k := scheduler.KindComputeExecutor
+			per = append(per, fmt.Sprintf("(%s, %s, %s, %s)",
+				betas(func(pi *signature.Proof) [32]byte { return schedulerApp.VerifDedupBeta(cc, ep, id, k, scheduler.RoleWorker, pi) }),
+				betas(func(pi *signature.Proof) [32]byte { return schedulerApp.VerifCommitteeBeta(cc, ep, id, k, scheduler.RoleWorker, pi) }),
+				betas(func(pi *signature.Proof) [32]byte { return schedulerApp.VerifDedupBeta(cc, ep, id, k, scheduler.RoleBackupWorker, pi) }),
+				betas(func(pi *signature.Proof) [32]byte { return schedulerApp.VerifCommitteeBeta(cc, ep, id, k, scheduler.RoleBackupWorker, pi) })))
+		}
+		vrf = fmt.Sprintf("(Some (mkVrf %s %s %s %s))", coqout.Bool(e.VRF.Can), coqout.Bool(e.VRF.Weak),
+			betas(func(pi *signature.Proof) [32]byte { return schedulerApp.VerifValidatorBeta(cc, ep, pi) }), coqout.List(per))
+	}
+	return fmt.Sprintf("mkIn (mkParams %d %d %d %s %s) %s %d %s %s %s %s %s %s %s %s %d %s %s",
 		p.Min, p.Max, p.Per, coqout.Bool(p.Bypass), coqout.Bool(p.Sqrt),
-		coqout.List(ents), e.Epoch, coqout.List(nodes), coqout.List(rts), te, tn, coqout.List(permc), coqout.List(cur), coqout.Bool(e.FV261))
+		coqout.List(ents), e.Epoch, coqout.List(nodes), coqout.List(rts), te, tn, coqout.List(permc), coqout.List(cur), coqout.Bool(e.FV261),
+		vrf, e.Base, coqout.Bool(e.Changed), coqout.Bool(e.Slashed))
 }
 
 func outputTerm(o *Obs) string {
+	if o.Skip {
+		return "ESkip"
+	}
 	if o.Err != 0 {
 		return fmt.Sprintf("EErr %d", o.Err)
 	}
@@ -874,14 +1040,14 @@ func outputTerm(o *Obs) string {
 	}
 	for _, c := range o.Comms {
 		if !c.Present {
-			cs = append(cs, fmt.Sprintf("(%s, None)", num(c.Rt)))
+			cs = append(cs, fmt.Sprintf("(%s, None)", numRt(c.Rt)))
 			continue
 		}
 		var ms []string
 		for _, m := range c.Members {
 			ms = append(ms, fmt.Sprintf("(%d, %s)", m.Role, num(m.ID)))
 		}
-		cs = append(cs, fmt.Sprintf("(%s, Some %s)", num(c.Rt), coqout.List(ms)))
+		cs = append(cs, fmt.Sprintf("(%s, Some %s)", numRt(c.Rt), coqout.List(ms)))
 	}
 	return fmt.Sprintf("EOk %s %s %s", coqout.List(vs), coqout.List(us), coqout.List(cs))
 }
@@ -999,6 +1165,10 @@ func genNode(r *prng.R, c *Case, ent int, epoch uint64) NodeD {
 	if r.Chance(10) {
 		n.Freeze = []uint64{1, epoch, epoch + 3, ^uint64(0)}[r.Intn(4)]
 	}
+	if r.Chance(25) {
+		n.Elig = []uint64{epoch - 1, epoch, epoch + 1}[r.Intn(3)]
+	}
+	n.NoPi = r.Chance(15)
 	if n.Roles&1 != 0 && len(c.Rts) > 0 {
 		k := r.Range(1, 3)
 		for j := 0; j < k; j++ {
@@ -1011,7 +1181,13 @@ func genNode(r *prng.R, c *Case, ent int, epoch uint64) NodeD {
 			if r.Chance(8) {
 				ver = versions[r.Intn(len(versions))]
 			}
-			n.Rts = append(n.Rts, NodeRt{Rt: ri, Ver: ver, Tee: r.Chance(5)})
+			tee := 0
+			if rt.Tee != 0 && r.Chance(60) {
+				tee = 1
+			} else if r.Chance(5) {
+				tee = r.Range(1, 2)
+			}
+			n.Rts = append(n.Rts, NodeRt{Rt: ri, Ver: ver, Tee: tee})
 		}
 		if r.Chance(12) {
 			n.Faults = append(n.Faults, FaultD{Rt: n.Rts[0].Rt, Until: []uint64{0, epoch, epoch + 1, epoch + 5}[r.Intn(4)]})
@@ -1051,6 +1227,9 @@ func genCase(r *prng.R) Case {
 			rt.Deps[0].From = e0 + 1
 		}
 		rt.CW, rt.CB = genCs(r), genCs(r)
+		if r.Chance(8) {
+			rt.Tee = 1
+		}
 		c.Rts = append(c.Rts, rt)
 	}
 	nEnt := r.Range(2, 7)
@@ -1058,7 +1237,17 @@ func genCase(r *prng.R) Case {
 		c.EntKeys = append(c.EntKeys, rkey(r))
 	}
 	tie := []int{1000, 2000, 5000, 300, 16}[r.Intn(5)]
-	ep := EpochD{Epoch: e0, Entropy: hex.EncodeToString(r.Bytes(32)), Params: genParams(r), FV261: r.Chance(85)}
+	ep := EpochD{Epoch: e0, Entropy: hex.EncodeToString(r.Bytes(32)), Params: genParams(r), FV261: r.Chance(85), Changed: true}
+	if r.Chance(35) {
+		ep.VRF = &VrfD{Can: r.Chance(88), Weak: r.Chance(15)}
+	}
+	if r.Chance(4) {
+		ep.Base = e0 // still in the bootstrap epoch: no election
+	}
+	if r.Chance(3) {
+		ep.Changed = false
+		ep.Slashed = r.Chance(50)
+	}
 	for i := 0; i < nEnt; i++ {
 		e := EntD{NoAccount: r.Chance(7), Claims: genClaims(r, e0)}
 		e.Escrow = genEscrow(r, &c, &e, tie)
@@ -1069,15 +1258,26 @@ func genCase(r *prng.R) Case {
 		}
 	}
 	c.Epochs = append(c.Epochs, ep)
-	nEp := []int{1, 1, 2, 3, 4}[r.Intn(5)]
+	nEp := []int{1, 2, 3, 3, 4, 5, 6, 8, 10}[r.Intn(9)]
 	for k := 1; k < nEp; k++ {
 		prev := c.Epochs[k-1]
-		nx := EpochD{Epoch: prev.Epoch + 1, Entropy: hex.EncodeToString(r.Bytes(32)), Params: prev.Params, FV261: prev.FV261}
+		nx := EpochD{Epoch: prev.Epoch + 1, Entropy: hex.EncodeToString(r.Bytes(32)), Params: prev.Params, FV261: prev.FV261, Base: prev.Base, Changed: true}
+		if prev.VRF != nil {
+			nx.VRF = &VrfD{Can: prev.VRF.Can, Weak: prev.VRF.Weak}
+			if r.Chance(15) {
+				nx.VRF.Can = !nx.VRF.Can
+			}
+		}
 		if r.Chance(20) {
 			nx.Params = genParams(r)
 		}
 		if r.Chance(10) {
 			nx.Epoch += uint64(r.Intn(3))
+		}
+		if r.Chance(22) {
+			// a block inside the epoch: re-election only if stake was slashed in it
+			nx.Epoch, nx.Entropy, nx.Changed = prev.Epoch, prev.Entropy, false
+			nx.Slashed = r.Chance(55)
 		}
 		for i, e := range prev.Ents {
 			ne := e
@@ -1104,6 +1304,15 @@ func genCase(r *prng.R) Case {
 			case x < 45:
 				n.Roles ^= 8
 			}
+			if nx.Changed {
+				n.NoPi = r.Chance(15)
+				if n.Exp <= nx.Epoch && r.Chance(75) { // the node re-registers
+					n.Exp = nx.Epoch + uint64(r.Intn(3))
+				}
+				if n.Freeze != 0 && r.Chance(30) {
+					n.Freeze = 0
+				}
+			}
 			nx.Nodes = append(nx.Nodes, n)
 		}
 		if r.Chance(50) && len(nx.Nodes) < 14 {
@@ -1122,10 +1331,10 @@ func boundaryCases() []Case {
 		ep := EpochD{Epoch: 3, Entropy: hex.EncodeToString([]byte{entropy, 1, 2, 3, 4, 5, 6, 7, 8, 9, 10, 11, 12, 13, 14, 15, 16, 17, 18, 19, 20, 21, 22, 23, 24, 25, 26, 27, 28, 29, 30, 31}),
 			Params: ParamsD{Min: 1, Max: max, Per: 1}, FV261: true}
 		for i, s := range escrows {
-			key := fmt.Sprintf("%064x", 0x1000+i)
+			key := fmt.Sprintf("%016x%048x", 0x1000+i, 0)
 			c.EntKeys = append(c.EntKeys, key)
 			ep.Ents = append(ep.Ents, EntD{Escrow: s, Claims: []ClaimD{{Name: "registry.RegisterEntity", Thr: []ThrD{{Global: 0}}}, {Name: "registry.RegisterNode.0", Thr: []ThrD{{Global: 1}}}}})
-			ep.Nodes = append(ep.Nodes, NodeD{Key: fmt.Sprintf("%064x", 0x2000+i), Cons: fmt.Sprintf("%064x", 0x3000+i), Ent: i, Roles: 8, Exp: 3})
+			ep.Nodes = append(ep.Nodes, NodeD{Key: fmt.Sprintf("%016x%048x", 0x2000+i, 0), Cons: fmt.Sprintf("%016x%048x", 0x3000+i, 0), Ent: i, Roles: 8, Exp: 3})
 		}
 		c.Epochs = []EpochD{ep}
 		return c
@@ -1253,7 +1462,7 @@ func main() {
 	// the proved-sound checker impl_ok_b must accept the implementation's output
 	wb := coqout.NewWriter(*out, hdr, "fun c => (run_epoch (fst c), impl_ok_b (fst c) (snd c))",
 		"fun a b => out_eqb (fst a) (fst b) && Bool.eqb (snd a) (snd b)", 40)
-	sum := coqout.NewSummary("one evaluation = one epoch transition (real scheduler elect + EndBlock on a mock application state) of a seeded case: 1-6 entities with 0-3 nodes each (validator/compute/observer/key-manager role mixes, expired/at-expiry/frozen/suspended nodes, wrong runtime versions, TEE-capable nodes), escrow at / one below / one above the sum of the entity's claim thresholds, tie values, zero, int64-power-overflow values, 0-3 runtimes (compute/key-manager, suspended, group sizes 0-3 / backup 0-2, ValidatorSet / MaxNodes 0-2 / MinPoolSize 0-3 constraints, 1-2 deployments), MaxValidators 1-6, MinValidators 1-3, MaxValidatorsPerEntity 1-3, both power distributions, stake bypass, 1-4 successive epochs with stake/membership/param changes; non-trivial = election succeeded with >= 2 validators and at least one validator-role node was not elected; distinct = distinct (epoch input, previous set) pairs")
+	sum := coqout.NewSummary("one evaluation = one epoch transition (real scheduler elect + EndBlock on a mock application state) of a seeded case: 1-6 entities with 0-3 nodes each (validator/compute/observer/key-manager role mixes, expired/at-expiry/frozen/suspended nodes, wrong runtime versions, TEE-capable nodes), escrow at / one below / one above the sum of the entity's claim thresholds, tie values, zero, int64-power-overflow values, 0-3 runtimes (compute/key-manager, suspended, group sizes 0-3 / backup 0-2, ValidatorSet / MaxNodes 0-2 / MinPoolSize 0-3 constraints, 1-2 deployments), MaxValidators 1-6, MinValidators 1-3, MaxValidatorsPerEntity 1-3, both power distributions, stake bypass, 1-4 successive epochs with stake/membership/param changes; beacon backend insecure or VRF (real proofs from seeded signers, nodes without proof, ElectionEligibleAfter around the epoch, weak alpha with/without DebugAllowWeakAlpha), TEE runtimes and TEE-capable nodes (attestations that do not verify), blocks inside an epoch with/without a slashing event and base-epoch blocks through the real BeginBlock trigger, 1-10 successive blocks per case with the engine's validator set carried along; non-trivial = election succeeded with >= 2 validators and at least one validator-role node was not elected; distinct = distinct (epoch input, previous set) pairs")
 	var cases []Case
 	if *replay != "" {
 		b, err := os.ReadFile(*replay)
@@ -1347,8 +1556,47 @@ func main() {
 						}
 					}
 				}
-				sum.Count("result", []string{"ok", "err-power", "err-none-elected", "err-insufficient", "", "", "", "", "", "err-other"}[o.Err])
-				if o.Err == 0 {
+				if o.Skip {
+					sum.Count("result", "no-election")
+				} else {
+					sum.Count("result", []string{"ok", "err-power", "err-none-elected", "err-insufficient", "", "", "", "", "", "err-other"}[o.Err])
+				}
+				switch {
+				case e.Epoch == e.Base:
+					sum.Count("trigger", "base-epoch")
+				case e.Changed:
+					sum.Count("trigger", "epoch-changed")
+				case e.Slashed:
+					sum.Count("trigger", "slashed-in-epoch")
+				default:
+					sum.Count("trigger", "none")
+				}
+				if e.VRF == nil {
+					sum.Count("beacon", "insecure")
+				} else {
+					vv := &view{c: c, e: e}
+					switch {
+					case !e.VRF.Can && !e.VRF.Weak:
+						sum.Count("beacon", "vrf-weak-alpha-no-committees")
+					case vv.valSortition():
+						sum.Count("beacon", "vrf-sortition")
+					default:
+						sum.Count("beacon", "vrf-validators-fall-back-to-entropy")
+					}
+					for _, nd := range e.Nodes {
+						if nd.NoPi {
+							sum.Count("node", "vrf-no-proof")
+						}
+					}
+				}
+				for _, nd := range e.Nodes {
+					for _, x := range nd.Rts {
+						if x.Tee != 0 || c.Rts[x.Rt].Tee != 0 {
+							sum.Count("tee", fmt.Sprintf("runtime-hw-%d/node-cap-%d", c.Rts[x.Rt].Tee, x.Tee))
+						}
+					}
+				}
+				if o.Err == 0 && !o.Skip {
 					sum.Count("validators", fmt.Sprint(len(o.Vals)))
 					sum.Count("updates", fmt.Sprint(len(o.Updates)))
 					// tie at the boundary: an unrepresented eligible entity with the same escrow as a represented one
